@@ -25,6 +25,9 @@ pub struct DocCfg {
     /// with a character code of up to 8 hexadecimal digits, which the library stores in the revision
     /// identifier itself (outside C04's document family, inside every other property's)
     pub chars: bool,
+    /// identified single objects nested inside identified single objects, whose containment edits may
+    /// invert (concurrently inverted on two replicas the per-object winners refer to each other)
+    pub chain: bool,
 }
 
 impl DocCfg {
@@ -39,6 +42,7 @@ impl DocCfg {
             bang_ids: false,
             root_ids: false,
             chars: false,
+            chain: false,
         }
     }
 }
@@ -289,8 +293,54 @@ fn try_mutate(rng: &mut Rng, cfg: &DocCfg, doc: &mut Value) -> Option<&'static s
         }
         return Some("root-id");
     }
-    let w = [8u32, 10, 8, 6, 6, 8, 5, 3, 3, 4, 4, 3, 3];
+    let w = [8u32, 10, 8, 6, 6, 8, 5, 3, 3, 4, 4, 3, 3, if cfg.chain { 12 } else { 0 }];
     match rng.weighted(&w) {
+        13 => {
+            // identified single objects that contain each other: built, edited, containment inverted
+            let fresh = free_id(rng, cfg, doc);
+            let f = fields(rng, cfg);
+            let o = doc.as_object_mut()?;
+            let has_outer = o.get(META_KEY).map_or(false, |m| m.get("_id").map_or(false, |i| i.is_string()));
+            if !has_outer {
+                let mut f = f;
+                f.insert("_id".to_string(), Value::from(fresh?));
+                o.insert(META_KEY.to_string(), Value::Object(f));
+                return Some("chain-outer");
+            }
+            let outer = o.get_mut(META_KEY)?.as_object_mut()?;
+            let has_inner = outer.get(META_KEY).map_or(false, |m| m.get("_id").map_or(false, |i| i.is_string()));
+            if !has_inner {
+                let mut f = f;
+                f.insert("_id".to_string(), Value::from(fresh?));
+                outer.insert(META_KEY.to_string(), Value::Object(f));
+                return Some("chain-inner");
+            }
+            match rng.below(5) {
+                0 | 1 => {
+                    // the contained object becomes the container
+                    let mut inner = outer.remove(META_KEY)?.as_object()?.clone();
+                    let old_outer = outer.clone();
+                    inner.remove(META_KEY);
+                    inner.insert(META_KEY.to_string(), Value::Object(old_outer));
+                    o.insert(META_KEY.to_string(), Value::Object(inner));
+                    Some("chain-invert")
+                }
+                2 => {
+                    let k = *rng.pick(&FIELD_KEYS);
+                    outer.insert(k.to_string(), scalar(rng, cfg));
+                    Some("chain-edit-outer")
+                }
+                3 => {
+                    let k = *rng.pick(&FIELD_KEYS);
+                    outer.get_mut(META_KEY)?.as_object_mut()?.insert(k.to_string(), scalar(rng, cfg));
+                    Some("chain-edit-inner")
+                }
+                _ => {
+                    outer.remove(META_KEY);
+                    Some("chain-cut")
+                }
+            }
+        }
         0 => {
             // edit a root scalar
             let key = *rng.pick(&["title", "n", "plain"]);
